@@ -111,7 +111,7 @@ class SIvR(SIR):
         super().build(params)
 
         # stash the efficacy
-        efficacy = self.getParameters(params, [self.EFFICACY])
+        [efficacy] = self.getParameters(params, [self.EFFICACY])
         self._efficacy = efficacy
 
         # default to no time offset
